@@ -1,7 +1,7 @@
 (* wire glue for C18 (model inference) *)
 (* WIRE engine=118 fn=dispatch_c18 *)
 From Coq Require Import List NArith ZArith Bool.
-From RPFT Require Import Base.Sexp Base.PyStr Base.Result Gen.Tables Row.InferTy Row.Infer.
+From RPFT Require Import Base.Sexp Base.PyStr Base.Result Gen.Tables Row.InferTy Row.Infer Row.InferCip.
 Import ListNotations.
 Local Open Scope N_scope.
 
@@ -114,6 +114,58 @@ Definition with_s (x : sexp) (f : str -> sexp) : sexp :=
 Definition with_schema (x : sexp) (f : schema -> sexp) : sexp :=
   match dec_schema x with Some s => f s | None => s_badinput end.
 
+(* ---- histories of one ContentIndexParser (Row/InferCip.v) *)
+Definition cerr_code (e : cerr) : N :=
+  match e with
+  | CNoSheetName => 11 | CNoNewName => 12 | CUnknownOp => 13 | CSheetNotFound => 14
+  | CUndefinedModel => 15 | CModelMismatch => 16 | CRows => 17
+  | CInfer e => 20 + err_code e
+  end.
+
+Definition enc_rmodel (m : rmodel) : sexp :=
+  match m with
+  | RUser u => L [A 0; enc_str u]
+  | RInferred k src t => L [A 1; enc_nat k; enc_str src; enc_ty t]
+  end.
+
+Definition enc_state (st : state) : sexp :=
+  L (map (fun nd : str * dsheet =>
+            L [enc_str (fst nd); enc_rmodel (ds_model (snd nd)); enc_list enc_str (ds_srcs (snd nd))]) (reg st)).
+
+Definition enc_outcome (r : result cerr state) : sexp :=
+  match r with Ok st => L [A 0; enc_state st] | Err e => s_err (cerr_code e) end.
+
+Definition dec_wsheet (x : sexp) : option (str * wsheet) :=
+  match x with
+  | L [n; hs; ok] =>
+    match dec_str n, dec_list dec_str hs, dec_bool ok with
+    | Some n, Some hs, Some ok => Some (n, mk_wsheet (mk_table hs []) ok)
+    | _, _, _ => None
+    end
+  | _ => None
+  end.
+
+Definition dec_env (x : sexp) : option env :=
+  match x with
+  | L [sheets; module] =>
+    match dec_list dec_wsheet sheets,
+          dec_option (dec_list (dec_pair dec_str (dec_list dec_str))) module with
+    | Some sheets, Some module => Some (mk_env sheets module)
+    | _, _ => None
+    end
+  | _ => None
+  end.
+
+Definition dec_dsrow (x : sexp) : option dsrow :=
+  match x with
+  | L [names; new; dm; opt] =>
+    match dec_list dec_str names, dec_str new, dec_str dm, dec_str opt with
+    | Some names, Some new, Some dm, Some opt => Some (mk_dsrow names new dm opt)
+    | _, _, _, _ => None
+    end
+  | _ => None
+  end.
+
 Definition dispatch_c18 (fn : N) (args : list sexp) : sexp :=
   match fn, args with
   | 1, [hs] => match dec_list dec_str hs with
@@ -136,5 +188,14 @@ Definition dispatch_c18 (fn : N) (args : list sexp) : sexp :=
                 | None => s_badinput
                 end
   | 14, [sc] => with_schema sc (fun sc => enc_bool (wf_schema_full sc))
+  (* 15: the long-lived parser row by row; 16: the constructor (stops at the first error) *)
+  | 15, [e; rows] => match dec_env e, dec_list dec_dsrow rows with
+                     | Some e, Some rows => L (map enc_outcome (scan_all e rows init_state))
+                     | _, _ => s_badinput
+                     end
+  | 16, [e; rows] => match dec_env e, dec_list dec_dsrow rows with
+                     | Some e, Some rows => enc_outcome (run e rows init_state)
+                     | _, _ => s_badinput
+                     end
   | _, _ => s_badinput
   end.
